@@ -59,7 +59,9 @@ func cancelCase(id int, u *ExecUniverse, ref CaseRef) (CancelRec, error) {
 			cc := run.NewCountingCtx(p.Base, 0, nil)
 			base := p.One(cc, run.Call(ei), nil)
 			base.Bad = ""
-			for _, kind := range []string{"c", "d"} {
+			// c = Canceled, d = DeadlineExceeded (a counting context of the runner), u = a real
+			// context.WithCancelCause parent cancelled with a custom cause (Err() is Canceled)
+			for _, kind := range []string{"c", "d", "u"} {
 				cause := context.Canceled
 				if kind == "d" {
 					cause = context.DeadlineExceeded
@@ -67,6 +69,9 @@ func cancelCase(id int, u *ExecUniverse, ref CaseRef) (CancelRec, error) {
 				r := CancelRun{Entry: entry, Silent: silent, Kind: kind, Polls0: cc.Polls, Base: base, Outs: []CancelOut{}}
 				for k := 1; k <= cc.Polls; k++ {
 					kc := run.NewCountingCtx(p.Base, k, cause)
+					if kind == "u" {
+						kc = run.NewCountingCtxWithCause(p.Base, k)
+					}
 					o := p.One(kc, run.Call(ei), nil)
 					r.Outs = append(r.Outs, CancelOut{K: k, E: o.Err.Code(), N: len(o.Items), B: o.Val, P: kc.Polls})
 				}
